@@ -212,6 +212,16 @@ theorem jointUnique_rows_named (T : ScopeTable) (S : Schema) (P : Frame) (i : Na
       | nil => exact absurd hl hu
       | cons _ _ => rfl
     simp only [hne, ↓reduceIte]
+    by_cases hcols0 : jointCols S P = []
+    · have : (List.filterMap P.col? (List.filter P.hasCol S.unique)).isEmpty = true := by
+        have h0 : List.filterMap P.col? (List.filter P.hasCol S.unique) = [] := hcols0
+        rw [h0]; rfl
+      simp [this, hcols0]
+    have hcne : (List.filterMap P.col? (List.filter P.hasCol S.unique)).isEmpty = false := by
+      cases hl : List.filterMap P.col? (List.filter P.hasCol S.unique) with
+      | nil => exact absurd hl hcols0
+      | cons _ _ => rfl
+    simp only [hcne, Bool.false_eq_true, ↓reduceIte]
     show (∃ e ∈ (if (jointDupRows S P).isEmpty then [] else
         [({ reason := .duplicates, ctx := .frame, label := none,
             cells := ((jointCols S P).map (fun c => cellsAt (some c.name) c.vals (jointDupRows S P))).flatten } : Err)]),
@@ -224,8 +234,7 @@ theorem jointUnique_rows_named (T : ScopeTable) (S : Schema) (P : Frame) (i : Na
         subst he
         simp only [List.mem_flatten, List.mem_map] at hc
         obtain ⟨l, ⟨c, hcm, rfl⟩, hcell⟩ := hc
-        refine ⟨hu, ?_, ((mem_cellsAt_iff _ _ _ _).mp hcell).2.1⟩
-        intro hnil; rw [hnil] at hcm; cases hcm
+        exact ⟨hu, hcols0, ((mem_cellsAt_iff _ _ _ _).mp hcell).2.1⟩
     · rintro ⟨_, hcols, hi⟩
       have hne2 : (jointDupRows S P).isEmpty = false := by
         cases hl : jointDupRows S P with
